@@ -211,3 +211,99 @@ def modes_rule(chk, db, rule_id):
             chk.ob(rule_id, f.key + f.sig, "%s is not reached during dynamic construction" % cal.replace("TasGrid::", ""), ok, f.loc(c),
                    "" if ok else "no throw under `using_dynamic_construction` in this method: a batch refinement can be installed in the middle of a construction")
     return n
+
+
+def tablebound_rule(chk, db, rule_id):
+    """levels 0..L of a tabulated / cached one dimensional rule are used only when L + 1 <= getNumLevels()"""
+    import sympy
+    from tsg.sym import to_sympy, NotClosedForm
+    chk.rule(rule_id, "wherever the largest level that is going to be used is compared with the number of levels a table or cache holds (getNumLevels()), the outcome that keeps using the "
+                      "table implies level + 1 <= getNumLevels(): the comparison is brought to the normal form `V + c <= NL` on its 'sufficient' side (members are replaced by their "
+                      "constructor initialisers) and c >= 1 is required; otherwise the documented exception for a table that is too short is not thrown and the level is read past the end")
+    NL = sympy.Symbol("NL", integer=True)
+    n = 0
+    for f in db.all_functions(["SparseGrids/tsgOneDimensionalWrapper.hpp", "SparseGrids/tsgGridGlobal.cpp", "SparseGrids/tsgGridFourier.cpp", "SparseGrids/tsgGridGlobal.hpp", "SparseGrids/tsgGridFourier.hpp"]):
+        if f.d.get("islambda"):
+            continue
+        inits = {short(i["field"]): i["init"] for i in (f.d.get("inits") or []) if i.get("field") and i.get("init") is not None}
+
+        def resolve(q, depth=[0]):
+            k = q.get("k")
+            if k in ("CXXMemberCallExpr", "CallExpr") and short(callee(q) or "") == "getNumLevels":
+                return NL
+            if k == "MemberExpr" and short(q.get("field") or "") in inits and depth[0] < 3:
+                depth[0] += 1
+                try:
+                    return to_sympy(inits[short(q["field"])], resolve)
+                finally:
+                    depth[0] -= 1
+            if k == "DeclRefExpr" and q.get("var"):
+                d_ = f.locals().get(q.get("did"))
+                if d_ is not None and d_.get("c") and depth[0] < 3 and not q.get("parm"):
+                    depth[0] += 1
+                    try:
+                        return to_sympy(d_["c"][0], resolve)
+                    except NotClosedForm:
+                        pass
+                    finally:
+                        depth[0] -= 1
+                return sympy.Symbol("v_" + q["var"], integer=True)
+            if k in ("CXXMemberCallExpr", "CallExpr") and not call_args(q):
+                return sympy.Symbol("c_" + short(callee(q) or "call"), integer=True)
+            if k == "MemberExpr" and q.get("field"):
+                return sympy.Symbol("m_" + short(q["field"]), integer=True)
+            return None
+        for iff in f.walk():
+            if iff.get("k") != "IfStmt" or iff.get("cond") is None or not is_reachable(f, iff):
+                continue
+            c = strip(iff["cond"])
+            if c is None or c.get("k") != "BinaryOperator" or c.get("op") not in ("<", "<=", ">", ">=") or "getNumLevels" not in txt(c):
+                continue
+            try:
+                a, b = to_sympy(c["c"][0], resolve), to_sympy(c["c"][1], resolve)
+            except NotClosedForm:
+                continue
+            op = c["op"]
+            if NL in b.free_symbols and NL not in a.free_symbols:
+                small, large = a, b          # written as  small OP large
+            elif NL in a.free_symbols and NL not in b.free_symbols:
+                small, large, op = b, a, {"<": ">", ">": "<", "<=": ">=", ">=": "<="}[op]
+            else:
+                continue
+            # 'sufficient' region in the form  small + k <= large
+            k_ = {"<": 1, "<=": 0, ">": 0, ">=": 1}[op]      # small < large -> small + 1 <= large ; NOT(small > large) -> small <= large ; NOT(small >= large) -> small + 1 <= large
+            free = [s_ for s_ in small.free_symbols]
+            if len(free) != 1:
+                continue
+            V = free[0]
+            cval = sympy.simplify(small + k_ - V - (large - NL))
+            n += 1
+            chk.saw(f)
+            ok = cval.is_number and cval >= 1
+            chk.ob(rule_id, f.key + f.sig, "table bound @%d `%s`" % (iff.get("l", 0), txt(c)[:60]), bool(ok), f.loc(iff),
+                   "the table is used as is when %s + %s <= getNumLevels()" % (V, cval), "level + 1 <= getNumLevels()")
+    return n
+
+
+def cwrap_rule(chk, db, rule_id):
+    """C entry points that turn a failed read into a return code catch both exception types the readers throw"""
+    chk.rule(rule_id, "an extern C entry point that wraps a file read of the library in try/catch and reports failure through its return value handles every exception type the readers "
+                      "throw for a file they reject (std::runtime_error and, from the custom-rule block, std::invalid_argument) - by both types, a common base class or catch(...): "
+                      "an exception that leaves an extern-C function terminates the caller")
+    n = 0
+    for f in db.all_functions(["SparseGrids/TasmanianSparseGridWrapC.cpp"]):
+        for t in f.walk():
+            if t.get("k") != "CXXTryStmt":
+                continue
+            kids = [c for c in t.get("c", []) if isinstance(c, dict)]
+            body = [c for c in kids if c.get("k") != "CXXCatchStmt"]
+            handlers = [c for c in kids if c.get("k") == "CXXCatchStmt"]
+            if not any(q.get("k") == "CXXMemberCallExpr" and short(callee(q) or "") == "read" for b in body for q in walk(b)):
+                continue
+            n += 1
+            chk.saw(f)
+            types = [h.get("catch") or "" for h in handlers]
+            wide = any(tp == "..." or "std::exception" in tp for tp in types)
+            ok = wide or (any("runtime_error" in tp for tp in types) and any("invalid_argument" in tp or "logic_error" in tp for tp in types))
+            chk.ob(rule_id, f.key, "failed read converted into a return code @%d" % t.get("l", 0), ok, f.loc(t), "handlers: %s" % types, "std::runtime_error and std::invalid_argument (or a common base)")
+    return n
